@@ -61,11 +61,13 @@ func genC13(g GenCtx) interface{} {
 		// a list fails: the controller stops (C14) - or, if it does not, it must
 		// not sit there alive without ever listing again
 		sc.FailAt = 1 + rng.Intn(sc.Periods)
-		sc.FailKind = pick(rng, "error", "error-typed-nil", "error-with-list", "error-with-full-list", "error-timeout", "error-canceled", "error-canceled-bare", "error-deadline-bare", "error-notrunning", "error-notrunning-wrapped")
+		sc.FailKind = pick(rng, "error", "error-typed-nil", "error-with-list", "error-with-full-list", "error-timeout", "error-canceled", "error-canceled-bare", "error-deadline-bare", "error-notrunning", "error-notrunning-wrapped", "error-nilcause", "error-nilcause-with-list")
 	}
 	if g.Idx%20 == 13 {
 		// "never" spelled as a huge period (a year, decades): no list but the first
-		sc.PeriodMs = pickInt(rng, 365*24*3600*1000, 30*365*24*3600*1000)
+		// (the simulated clock is int64 nanoseconds: 292 years in all, so the whole
+		// run - horizon, liveness window, stall moves - has to stay well below that)
+		sc.PeriodMs = pickInt(rng, 365*24*3600*1000, 3*365*24*3600*1000)
 		sc.Periods = 2
 		sc.LatPreMs, sc.LatPostMs = 0, pickInt(rng, 0, 5)
 		sc.CloseAtMs = rng.Intn(1000)
@@ -87,6 +89,10 @@ func genC13(g GenCtx) interface{} {
 		NewTimers: rng.Intn(3) == 0, PermuteMaps: true, MaxSteps: 120000, EstSteps: 2000}
 	sc.Sim.Strategy.StallPermille = pickInt(rng, 0, 0, 10, 50)
 	sc.Sim.Strategy.StallMaxMs = sc.PeriodMs
+	if sc.PeriodMs >= 365*24*3600*1000 {
+		sc.Sim.Strategy.StallPermille = 0
+		sc.WatchFaults = false
+	}
 	if busy {
 		// fairness of the controller's select is the point: plain random choice
 		sc.Sim.Strategy = detsim.Strategy{Kind: "uniform"}
